@@ -1662,7 +1662,15 @@ class FlowProposal(RejectionProposal):
         # Flow might have exited before any weights were saved.
         if weights_file is not None:
             if os.path.exists(weights_file):
-                self.flow.reload_weights(weights_file)
+                try:
+                    self.flow.reload_weights(weights_file)
+                except (EOFError, OSError, RuntimeError):
+                    logger.warning(
+                        "Could not load weights, trying previous weights file"
+                    )
+                    self.flow.reload_weights(weights_file + ".old")
+            elif os.path.exists(weights_file + ".old"):
+                self.flow.reload_weights(weights_file + ".old")
         else:
             logger.warning("Could not reload weights for flow")
 
